@@ -43,7 +43,6 @@ static void havoc_ghosts(void)
 #define NM       (*thenum)
 #define FF       (*firstfree)
 #define HEADC    (-(FF + 1))
-#define NEXTC(i) (-(INFO(i) + 1))
 
 #define FRESH_SET (1 <= themax && themax <= CAP \
    && __CPROVER_is_fresh(item, 2 * themax * sizeof(int)) && __CPROVER_is_fresh(key, 2 * themax * sizeof(int)) \
@@ -51,31 +50,67 @@ static void havoc_ghosts(void)
    && __CPROVER_is_fresh(thesize, sizeof(int)) && __CPROVER_is_fresh(thenum, sizeof(int)) && __CPROVER_is_fresh(firstfree, sizeof(int)))
 #define S_OK       (0 <= NM && NM <= SZ && SZ <= themax)
 #define INCELL(i)  (0 <= (i) && (i) < SZ)
-#define ISFREE(i)  (INCELL(i) && INFO(i) < 0)
 #define ISNUM(g)   (0 <= (g) && (g) < NM)
-#define K_AT(g)    (!ISNUM(g) || (INCELL(KIDX(g)) && INFO(KIDX(g)) == (g)))
-#define U_AT(i)    (!(INCELL(i) && INFO(i) >= 0) || (INFO(i) < NM && KIDX(INFO(i)) == (i)))
-#define R0_OK      ((FF == END) == (SZ == NM))
-#define R1_AT(i, RKF)    (!ISFREE(i) || (0 <= RKF(i) && RKF(i) < SZ - NM))
-#define R2_AT(i, RKF)    (!ISFREE(i) || ((INFO(i) == END) == (RKF(i) == 0)))
-#define R3_AT(i, RKF)    (!(ISFREE(i) && INFO(i) != END) || (ISFREE(NEXTC(i)) && RKF(NEXTC(i)) == RKF(i) - 1))
-#define R4_AT(a, b, RKF) (!(ISFREE(a) && ISFREE(b) && (a) != (b)) || RKF(a) != RKF(b))
-#define R5_OK(RKF)       (FF == END || (FF < 0 && ISFREE(HEADC) && RKF(HEADC) == SZ - NM - 1))
-#define R123_AT(i, RKF)  (R1_AT(i, RKF) && R2_AT(i, RKF) && R3_AT(i, RKF))
 
-/* rank function of the pre state */
-#define RK0(c) rank[c]
-/* INV of the pre state at the ghost cells (create/add need nothing else, apart from instances at the list head) */
-#define INV_GHOSTS(RKF) (K_AT(g_g) && U_AT(g_i) && U_AT(g_j) && R0_OK && R5_OK(RKF) \
-   && R123_AT(g_i, RKF) && R123_AT(g_j, RKF) && R4_AT(g_i, g_j, RKF))
+/* The conjuncts of INV as side-effect-free C functions (used in requires/ensures; no loops).  A function instead of
+ * a macro evaluates every array cell once (nested macro text made symbolic execution explode). */
+typedef const int* cip;
+static int is_free(cip item, int sz, int i) { return 0 <= i && i < sz && item[2 * i + 1] < 0; }
+static int k_at(cip item, cip key, int sz, int nm, int g)
+{
+   if(!(0 <= g && g < nm)) return 1;
+   int c = key[2 * g + 1];
+   return 0 <= c && c < sz && item[2 * c + 1] == g;
+}
+static int u_at(cip item, cip key, int sz, int nm, int i)
+{
+   if(!(0 <= i && i < sz)) return 1;
+   int f = item[2 * i + 1];
+   if(f < 0) return 1;
+   return f < nm && key[2 * f + 1] == i;
+}
+/* rank function: rank[c], except that cell x has rank c0 (x == -1: no exception) */
+static int rk(cip rank, int c, int x, int c0) { return c == x ? c0 : rank[c]; }
+static int r123_at(cip item, cip rank, int themax, int sz, int nm, int i, int x, int c0)
+{
+   if(!is_free(item, sz, i)) return 1;
+   int f = item[2 * i + 1];
+   int r = rk(rank, i, x, c0);
+   if(!(0 <= r && r < sz - nm)) return 0;                 /* R1 */
+   if((f == -themax - 1) != (r == 0)) return 0;           /* R2 */
+   if(f == -themax - 1) return 1;
+   int nx = -(f + 1);                                     /* R3 */
+   return is_free(item, sz, nx) && rk(rank, nx, x, c0) == r - 1;
+}
+static int r4_at(cip item, cip rank, int sz, int a, int b, int x, int c0)
+{
+   if(a == b || !is_free(item, sz, a) || !is_free(item, sz, b)) return 1;
+   return rk(rank, a, x, c0) != rk(rank, b, x, c0);
+}
+static int r05(cip item, cip rank, int themax, int sz, int nm, int ff, int x, int c0)
+{
+   if((ff == -themax - 1) != (sz == nm)) return 0;        /* R0 */
+   if(ff == -themax - 1) return 1;
+   if(ff >= 0) return 0;                                  /* R5 */
+   int h = -(ff + 1);
+   return is_free(item, sz, h) && rk(rank, h, x, c0) == sz - nm - 1;
+}
+#define K_AT(g)            k_at(item, key, SZ, NM, g)
+#define U_AT(i)            u_at(item, key, SZ, NM, i)
+#define R123_AT(i, X, C0)  r123_at(item, rank, themax, SZ, NM, i, X, C0)
+#define R4_AT(a, b, X, C0) r4_at(item, rank, SZ, a, b, X, C0)
+#define R05_OK(X, C0)      r05(item, rank, themax, SZ, NM, FF, X, C0)
+
+/* INV at the ghost cells; (X, C0) selects the rank function, (-1, 0) = the ghost array rank itself */
+#define INV_GHOSTS(X, C0) (K_AT(g_g) && U_AT(g_i) && U_AT(g_j) && R05_OK(X, C0) \
+   && R123_AT(g_i, X, C0) && R123_AT(g_j, X, C0) && R4_AT(g_i, g_j, X, C0))
 /* INV of the pre state at EVERY cell below CAP (explicit conjunction) */
-#define P_K(g)    K_AT(g)
-#define P_U(i)    U_AT(i)
-#define P_R123(i) R123_AT(i, RK0)
-#define P_R4(a, b) R4_AT(a, b, RK0)
+#define P_K(g)     K_AT(g)
+#define P_U(i)     U_AT(i)
+#define P_R123(i)  R123_AT(i, -1, 0)
+#define P_R4(a, b) R4_AT(a, b, -1, 0)
 #define P_R4ROW(a) REP_ALLB(P_R4, a)
-#define R4_ALL_PAIRS REP_ALL(P_R4ROW)
-#define INV_ALL_BUT_R4 (REP_ALL(P_K) && REP_ALL(P_U) && R0_OK && R5_OK(RK0) && REP_ALL(P_R123))
+#define INV_ALL (REP_ALL(P_K) && REP_ALL(P_U) && R05_OK(-1, 0) && REP_ALL(P_R123) && REP_ALL(P_R4ROW))
 
 /* ---------------------------------------------------------------------------------------------------------------- */
 #if defined(INST_create) || defined(INST_add)
@@ -84,15 +119,15 @@ static void havoc_ghosts(void)
  * data; every existing element keeps key, number and data; INV is preserved. */
 #define CREATE_REQUIRES \
 __CPROVER_requires(FRESH_SET && __CPROVER_is_fresh(newidx, sizeof(int)) && S_OK && NM < themax) \
-__CPROVER_requires(INV_GHOSTS(RK0)) \
-__CPROVER_requires(FF == END || (R123_AT(HEADC, RK0) && R4_AT(HEADC, g_i, RK0) && R4_AT(HEADC, g_j, RK0))) \
+__CPROVER_requires(INV_GHOSTS(-1, 0)) \
+__CPROVER_requires(FF == END || (R123_AT(HEADC, -1, 0) && R4_AT(HEADC, g_i, -1, 0) && R4_AT(HEADC, g_j, -1, 0))) \
 __CPROVER_requires(g_n0 == NM && g_s0 == SZ) \
 __CPROVER_requires(!(0 <= g_h && g_h < NM) || (K_AT(g_h) && v_kidx == KIDX(g_h) && v_dat == DAT(KIDX(g_h))))
 #define CREATE_ENSURES \
 __CPROVER_ensures(NM == g_n0 + 1 && (SZ == g_s0 || SZ == g_s0 + 1) && S_OK) \
 __CPROVER_ensures(0 <= *newidx && *newidx < SZ && INFO(*newidx) == g_n0 && KIDX(g_n0) == *newidx) \
 __CPROVER_ensures(!(0 <= g_h && g_h < g_n0) || (KIDX(g_h) == v_kidx && v_kidx != *newidx && INFO(v_kidx) == g_h && DAT(v_kidx) == v_dat)) \
-__CPROVER_ensures(INV_GHOSTS(RK0))
+__CPROVER_ensures(INV_GHOSTS(-1, 0))
 #endif
 
 #ifdef INST_create
@@ -164,11 +199,10 @@ void h_lookup(void)
  * !has(removenum): nothing changes.  Otherwise: num() drops by one; the removed key is dead (its cell is free or beyond
  * size()); the element that had the LAST number gets number removenum, every other element keeps its number (documented
  * renumbering); every survivor keeps key and data; INV is preserved.  Post-state rank: the freed cell g_x gets rank g_c0. */
-#define RK1(c) ((c) == g_x ? g_c0 : rank[c])
 #define HASNUM (0 <= removenum && removenum < g_n0)
 void w_remove1(int* item, int* key, int themax, int* thesize, int* thenum, int* firstfree, int removenum, int bykey, const int* rank)
-__CPROVER_requires(FRESH_SET && S_OK && INV_ALL_BUT_R4)
-__CPROVER_requires(R4_ALL_PAIRS)
+__CPROVER_requires(FRESH_SET && S_OK)
+__CPROVER_requires(INV_ALL)
 __CPROVER_requires(g_n0 == NM && g_s0 == SZ && g_c0 == SZ - NM && (!bykey || ISNUM(removenum)))
 __CPROVER_requires(!ISNUM(removenum) || g_x == KIDX(removenum))
 /* g_h: an element (old number) with its key and data;  g_i: a cell with its old info */
@@ -183,8 +217,7 @@ __CPROVER_ensures(!HASNUM || (NM == g_n0 - 1 && SZ <= g_s0 && S_OK && (g_x >= SZ
 __CPROVER_ensures(!(HASNUM && 0 <= g_h && g_h < g_n0 && g_h != removenum)
                   || (INCELL(v_kidx) && DAT(v_kidx) == v_dat && INFO(v_kidx) == (g_h == g_n0 - 1 ? removenum : g_h)
                       && KIDX(INFO(v_kidx)) == v_kidx))
-__CPROVER_ensures(!HASNUM || (K_AT(g_g) && U_AT(g_i) && U_AT(g_j) && R0_OK && R5_OK(RK1)
-                              && R123_AT(g_i, RK1) && R123_AT(g_j, RK1) && R4_AT(g_i, g_j, RK1)))
+__CPROVER_ensures(!HASNUM || INV_GHOSTS(g_x, g_c0))
 ;
 void h_remove1(void)
 {
